@@ -52,15 +52,7 @@ func c03CleanerFn(c *core.Ctx) {
 		if got != want || got2 != want {
 			c.Violate("fixed-cleaner-result", "FixedBufferCleaner(%d,%d)(%d, %v) = %d (without callback %d), reference %d", max, target, size, cp, got, got2, want)
 		}
-		if size > max {
-			if len(notes) != 1 {
-				c.Violate("fixed-cleaner-callback", "FixedBufferCleaner(%d,%d)(%d, %v): callback called %d times on a forced trim", max, target, size, cp, len(notes))
-			} else if n := notes[0]; n.Max != max || n.Target != target || n.Size != size || n.Trim != size-target || !intsEqual(n.Offsets, cp) {
-				c.Violate("fixed-cleaner-callback", "FixedBufferCleaner(%d,%d)(%d, %v): notification %+v", max, target, size, cp, n)
-			}
-		} else if len(notes) != 0 {
-			c.Violate("fixed-cleaner-callback", "FixedBufferCleaner(%d,%d)(%d, %v): callback called without a forced trim", max, target, size, cp)
-		}
+		_ = notes // (the optional notification callback is exercised but not asserted: it is not part of the statement)
 	}
 	if c.Index == 0 {
 		// complete enumeration of the small family
